@@ -672,14 +672,17 @@ fn apply_drop_shadow(
         usvg::filter::ColorInterpolation::LinearRGB => shadow_pixmap.into_linear_rgb(),
     }
 
-    pixmap.draw_pixmap(
-        dx as i32,
-        dy as i32,
-        shadow_pixmap.as_ref(),
-        &tiny_skia::PixmapPaint::default(),
-        tiny_skia::Transform::identity(),
-        None,
-    );
+    // A shadow that is moved by at least the image size is completely outside of the image.
+    if dx.abs() < pixmap.width() as f32 && dy.abs() < pixmap.height() as f32 {
+        pixmap.draw_pixmap(
+            dx as i32,
+            dy as i32,
+            shadow_pixmap.as_ref(),
+            &tiny_skia::PixmapPaint::default(),
+            tiny_skia::Transform::identity(),
+            None,
+        );
+    }
 
     pixmap.draw_pixmap(
         0,
